@@ -94,7 +94,7 @@ def main():
         b = GR.build(spec)
         try:
             g = extract_grammar(b.considered, b.start)
-            decl = declared_grammar(list(b.classes.values()), b.start)
+            decl = b.oracle()
             d = int(g.get_min_tree_depth()) + 2
             refined = "refined" if any("IntRange" in repr(c["fields"]) or "VarRange" in repr(c["fields"])
                                        for c in spec["classes"]) else "unrefined"
